@@ -151,7 +151,45 @@ def units():
                        or "Global(" in src or mutable_default_params(fn))
             if touches:
                 us.append(u)
+    us.append(DecoratorScan())
     return us
+
+
+# decorators of the unchanged tree that keep a value between calls, each on an object that is built per generator run or is an
+# immutable record (ExecutionPhase.depends_on / id_to_stmt; CodeBuilder._var_name_generator, a builder's own generator)
+MEMO_OK = {("dagrt/language.py", "ExecutionPhase.depends_on", "memoize_method"),
+           ("dagrt/language.py", "ExecutionPhase.id_to_stmt", "memoize_method"),
+           ("dagrt/language.py", "CodeBuilder._var_name_generator", "memoize_method")}
+STATELESS_DECORATORS = {"property", "staticmethod", "classmethod", "abstractmethod", "contextmanager"}
+
+
+class DecoratorScan:
+    """F4: a decorator can keep state that outlives a generator object (a memo table on a module-level function, or on the
+    DAGCode handed to two generators): every decorator of the generator modules is one that keeps none, or one of the
+    memoised properties listed above.  Anything else is outside what the frame conditions account for: undecided."""
+    label = "decorators-keep-no-state-between-generator-objects"
+    extracted = None
+    engine = None
+    contract = None
+
+    def generate(self):
+        import z3
+        from pyvc.engine import Obligation
+        unknown = []
+        n = 0
+        for rel in MODULES:
+            tree, _ = extract.parse_module(rel)
+            for q, cls, fn in functions_of(tree):
+                for d in fn.decorator_list:
+                    n += 1
+                    txt = ast.unparse(d)
+                    if txt in STATELESS_DECORATORS or txt.endswith(".setter") or (rel, q, txt) in MEMO_OK:
+                        continue
+                    unknown.append("%s:%s @%s" % (rel, q, txt))
+        if unknown:
+            raise Unsupported("decorators that may keep state between generator objects: %s" % ", ".join(unknown))
+        return [], [Obligation(self.label + "/every-decorator-is-stateless-or-a-listed-memoised-property(%d)" % n, [],
+                               z3.BoolVal(True))], {"decorators": n}
 
 
 def scope_info():
